@@ -165,3 +165,29 @@ func (c *Client) VerifSetHandshakeLeaf(leaf []byte) bool {
 	c.hs.leaf = leaf
 	return true
 }
+
+// VerifSetSendCounter moves the send counter of an established session forward (the state a long-lived
+// session reaches by itself after that many packets).
+func (c *Client) VerifSetSendCounter(v uint64) bool {
+	if c.ss == nil {
+		return false
+	}
+	c.ss.m.Lock()
+	defer c.ss.m.Unlock()
+	if v < c.ss.count {
+		return false
+	}
+	c.ss.count = v
+	return true
+}
+
+// VerifSetSendCounter is the same for the server side of a session.
+func (h *Handle) VerifSetSendCounter(v uint64) bool {
+	h.ss.m.Lock()
+	defer h.ss.m.Unlock()
+	if v < h.ss.count {
+		return false
+	}
+	h.ss.count = v
+	return true
+}
